@@ -52,6 +52,47 @@ NEEDS = {
     "C19_m2": "three or more crypto-fee acquisitions in one run, the k-th artificial id colliding with the row of a real lot of the same asset",
     "C20_m1": "an asset with a fee-less transfer in some year and a sheet for a later year",
     "C20_m2": "two assets, the alphabetically later one starting in a later year than the earlier one",
+    # round 2 (the agents were told what round 1 needed and asked for other mechanisms)
+    "C01_m3": "a year->method schedule with at least three entries and a disposal in a year whose candidate set was dropped (right subtree of the schedule tree skipped)",
+    "C01_m4": "LIFO/HIFO/LOFO, an earlier disposal leaving its lot partially consumed, then an income event and a disposal at the same instant (stale lot carried across the income event)",
+    "C02_m3": "two taxable events at the same instant, the first ending exactly on a lot boundary (valid history rejected: zero crypto amount)",
+    "C02_m4": "a from-date, a fee-bearing transfer before it (its fee no longer consumes a lot)",
+    "C03_m3": "a transfer whose fee is worth at most half a cent of fiat (taxability decided after rounding to cents)",
+    "C03_m4": "an earn-typed acquisition that carries a fee (taxed at its value without instead of with the fee)",
+    "C04_m3": "a sale with a crypto fee whose exchange-supplied fiat fee differs from fee x price, without a supplied sale value",
+    "C04_m4": "two assets in one process whose lots share a row number at different unit costs (unit-cost cache keyed by row)",
+    "C05_m3": "an acquisition with a crypto fee and a sub-second timestamp, sold within that sub-second fraction of the threshold (rebuilt lot loses its microseconds) - outside the whole-second lattice of Rp2Ledger; caught by C11",
+    "C05_m4": "the ES plugin and a holding period of exactly 365 days (threshold 366)",
+    "C06_m3": "a taxable event within the UTC-offset hours of new year written with a non-zero offset (year bucket taken in UTC)",
+    "C06_m4": "a (year, type, long/short) key whose fractions net to exactly zero gain (line dropped)",
+    "C07_m3": "a transfer to the same account (credit overwrites the debit)",
+    "C07_m4": "a to-date, non-UTC timestamps, a transaction between local midnight and UTC midnight at the to-date (balances cut by UTC date)",
+    "C08_m3": "an account emptied and then debited several times by amounts below the tolerance that add up beyond it (dust snapped to zero)",
+    "C08_m4": "a from-date and an earlier disposal on the overdrawn account (disposals before the from-date dropped from the running balance)",
+    "C09_m3": "a to-date and a lot used before and again after it (fraction counts shared with the unfiltered set)",
+    "C09_m4": "a to-date and a lot acquired before it that is sold after it (sold percentage counts later sales)",
+    "C10_m3": "a mid-year from-date with a taxable event earlier in that year (yearly lines built from the filtered set)",
+    "C10_m4": "a to-date and a lot used by a shown fraction and again after the to-date (re-sort before the window is set)",
+    "C11_m3": "a layout whose first column is a numeric field that is legitimately 0 on some row (0 taken for an empty cell)",
+    "C11_m4": "an [out_header] mapping the optional crypto_out_with_fee column, the cell filled, crypto fee > 0",
+    "C12_m3": "both fee cells of an acquisition filled in with one of them an explicit 0",
+    "C12_m4": "received > sent on a fee-less transfer with an empty spot price (two cooperating edits)",
+    "C13_m3": "an asset with an out-transaction carrying a crypto fee and a transfer (fee running sum of transfers seeded by out fees)",
+    "C13_m4": "a mid-year from-date with taxable events earlier in that year (yearly summary from the filtered set)",
+    "C14_m3": "rp2_us and an OUT-table Staking transaction (lot columns left blank)",
+    "C14_m4": "rp2_ie and a disposal whose timestamp has a UTC offset and crosses midnight when converted to UTC (date sold in UTC)",
+    "C15_m3": "a transfer to the same account (balance too high)",
+    "C15_m4": "an income event before later disposals of the asset (sold-percentage scan stops at the first income event)",
+    "C16_m3": "one asset with about 21 more gain/loss fractions than taxable events (Tax sheet allocated too few rows)",
+    "C16_m4": "an [accounting_methods] section with at least three periods and a taxable event in a dropped period",
+    "C17_m3": "two lots acquired within the same second (distinct sub-second parts) listed in reverse order, the most recent lots before a disposal",
+    "C17_m4": "two taxable transaction types in the same asset, year and term, runs under different hash seeds (incomplete sort key over a set)",
+    "C18_m3": "a config in the deprecated JSON format containing the generators key (remote $ref resolved over the network)",
+    "C18_m4": "RP2_ENABLE_PROFILER set in the environment (profile dumped to ./cumulative)",
+    "C19_m3": "an asset and year whose first taxable event is income-typed (Summary link skips income rows)",
+    "C19_m4": "a disposal taking less than 5e-14 of a lot (sold percentage equal to zero at 13 decimals): outside the integer lattice of the specification (amount ratios of 1e14)",
+    "C20_m3": "a DONATE followed in the same asset-year by an income acquisition or a fee-bearing transfer (donation text carried over)",
+    "C20_m4": "the first transaction of year Y+1 earlier, as an instant, than the first of year Y (mixed UTC offsets at year end)",
 }
 
 
